@@ -99,6 +99,7 @@ where
         status_on_unsat: bool,
     ) -> (bool, Option<Vec<&Argument<T>>>) {
         let mut merged = Vec::new();
+        let mut found_in_a_cc = false;
         for cc_af in ConnectedComponentsComputer::iter_connected_components(self.af) {
             let mut solver = (self.solver_factory)();
             self.constraints_encoder
@@ -114,6 +115,7 @@ where
                     let clause = args_in_cc
                         .iter()
                         .map(|a| self.constraints_encoder.arg_to_lit(a))
+                        .chain(std::iter::once(selector.negate()))
                         .collect::<Vec<Literal>>();
                     opt_selector = Some(selector);
                     solver.add_clause(clause);
@@ -130,6 +132,16 @@ where
                 if assumption_polarity {
                     solver.add_clause(vec![opt_selector.unwrap().negate()]);
                 }
+                // credulous acceptance of a list is a disjunction: it may be witnessed in another component
+                let result = match result {
+                    None if assumption_polarity && args_in_cc.len() < args.len() => {
+                        solver.solve().unwrap_model()
+                    }
+                    r => {
+                        found_in_a_cc = true;
+                        r
+                    }
+                };
                 match result {
                     Some(assignment) => {
                         let cc_ext = self
@@ -164,6 +176,9 @@ where
                     None => return (status_on_unsat, None),
                 }
             }
+        }
+        if assumption_polarity && !found_in_a_cc {
+            return (status_on_unsat, None);
         }
         (!status_on_unsat, Some(merged))
     }
